@@ -1692,7 +1692,12 @@ func (e *Enc) notMine(v Term, st types.Type) Term {
 	cs := []Term{Ne(v, IntLit(0))}
 	for _, a := range e.allocs {
 		if !a.complete && types.Identical(a.typ, st) {
-			cs = append(cs, Ne(v, a.ref))
+			// an allocation on a path that was not taken does not exist
+			if r, ok := e.reach[a.block]; ok && a.block != nil && e.prefix == "" {
+				cs = append(cs, Or(Not(r), Ne(v, a.ref)))
+			} else {
+				cs = append(cs, Ne(v, a.ref))
+			}
 		}
 	}
 	return And(cs...)
